@@ -33,14 +33,19 @@ Ltac no_guard t :=
   | context [Rlt_dec _ _] => fail
   | _ => idtac
   end.
+(* a guard about literals is decided by lra; one about computed values (exp ...) by CoqInterval *)
+Ltac absurd_le a b := first [ exfalso; lra | exfalso; assert (b < a) by (interval with (i_prec 60)); lra ].
+Ltac absurd_nle a b := first [ exfalso; lra | exfalso; assert (a <= b) by (interval with (i_prec 60)); lra ].
+Ltac absurd_lt a b := first [ exfalso; lra | exfalso; assert (b <= a) by (interval with (i_prec 60)); lra ].
+Ltac absurd_nlt a b := first [ exfalso; lra | exfalso; assert (a < b) by (interval with (i_prec 60)); lra ].
 Ltac decide_guards :=
   repeat match goal with
          | |- context [Rle_dec ?a ?b] =>
            no_guard a; no_guard b;
-           destruct (Rle_dec a b); [try (exfalso; lra) | try (exfalso; lra)]
+           destruct (Rle_dec a b); [try absurd_le a b | try absurd_nle a b]
          | |- context [Rlt_dec ?a ?b] =>
            no_guard a; no_guard b;
-           destruct (Rlt_dec a b); [try (exfalso; lra) | try (exfalso; lra)]
+           destruct (Rlt_dec a b); [try absurd_lt a b | try absurd_nlt a b]
          end.
 
 Ltac tie_numeric :=
@@ -56,6 +61,6 @@ Ltac rints :=
   repeat match goal with
          | |- context [RInt ?f ?a ?b] =>
            let H := fresh "HR" in
-           integral_intro (RInt f a b) with (i_prec 80, i_relwidth 45) as H;
+           integral_intro (RInt f a b) with (i_prec 80, i_relwidth 45, i_fuel 3000) as H;
            let P := fresh "P" in set (P := RInt f a b) in *; clearbody P
          end.
